@@ -148,9 +148,11 @@ def input_tags(record: Any) -> list[str]:
         for annotation in cds.gene_functions:
             if not annotation.product and ": " in annotation.description:
                 tags.add("gf-colon")
-        # free-text values of the CDS with a word too long for one GenBank qualifier line (59 columns): the
-        # writer splits the word, the parser joins the lines with a space
-        texts = list(cds.nrps_pks) + list(cds.notes) + list(cds._qualifiers.get("note") or [])  # pylint: disable=protected-access
+        # free text of the CDS (notes, sec_met / gene function descriptions) with a word too long for one GenBank
+        # qualifier line (59 columns): the writer splits the word, the parser joins the lines with a space.
+        # (the aSDomain names in NRPS_PKS qualifiers are repaired on reading since /repo 1f083fb2)
+        # (notes read from the input text are as the parser gave them, only added ones count)
+        texts = list(cds.notes)
         texts += [str(domain) for domain in cds.sec_met.domains] + [str(a) for a in cds.gene_functions]
         if any(len(word) >= 59 for text in texts for word in str(text).split()):
             tags.add("long-word")
@@ -445,8 +447,8 @@ FINDING_CLASSES: dict[str, Any] = {
     "C10-F6": lambda clause, case: _known(clause, case, ("CDS_motif", "fixed-point-order"), ("prepeptide-origin",)),
     "C10-F7": lambda clause, case: _known(clause, case, ("CDS_motif", "fixed-point-order"),
                                           ("prepeptide-partial", "prepeptide-order")),
-    # a word of a free-text CDS qualifier (NRPS_PKS 'Matches aSDomain: <id>', note) that does not fit a GenBank
-    # line is split by the writer and comes back with a space inside; only locus_tag/domain_id/label are repaired
+    # a word of a free-text CDS qualifier (a note) that does not fit a GenBank line is split by the writer and
+    # comes back with a space inside; identifiers (locus_tag, domain_id, label, aSDomain references) are repaired
     "C10-F12": lambda clause, case: clause.startswith("gbk-") and _known(clause, case, ("CDS",), ("long-word",)),
     # member genes missed by Record.get_cds_features_within_location (C08) at creation or on reload
     "C10-F8": lambda clause, case: _known(clause, case, ("area-members",), ("cds-link-miss", "cds-query-miss")),
